@@ -822,8 +822,6 @@ def gate_rule(rule, N: int) -> Optional[str]:
     parent_objs = [o for n in range(N + 1) for o in brute_objects(c, n)]
     child_sets = [set(o for n in range(N + 1) for o in brute_objects(ch, n)) for ch in children]
     if isinstance(strat, DisjointUnionStrategy):
-        if tuple(strat.shifts(c, children)) != tuple(0 for _ in children):
-            return "union shifts"
         seen = [set() for _ in children]
         for o in parent_objs:
             img = rule.forward_map(Word(o))
@@ -851,9 +849,7 @@ def gate_rule(rule, N: int) -> Optional[str]:
             if {x for x in s if len(x) <= N} != seen[i]:
                 return f"child {children[i]!r} of {c!r} not covered by the union"
     elif isinstance(strat, CartesianProductStrategy):
-        mins = [ch.minimum_size_of_object() for ch in children]
-        if tuple(strat.shifts(c, children)) != tuple(sum(mins) - m for m in mins):
-            return "product shifts"
+        # (shifts() is library code: judged by C10, not by the gate)
         if c.is_empty() or any(ch.is_empty() for ch in children):
             return f"product with an empty class: {c!r}"
         seen_t = set()
